@@ -1279,6 +1279,17 @@ class Analyzer:
         if isinstance(it, ast.Call) and isinstance(it.func, ast.Name) and \
                 it.func.id == "range":
             a = [self.ev(st, x) for x in it.args]
+            if len(a) == 3 and all(isinstance(x, Lin) for x in a) and \
+                    a[2].is_const() and a[2].c == -1:
+                # range(a, b, -1) visits a, a-1, .., b+1: the round number
+                # k runs over [0, a - b) and the target is a - k
+                if isinstance(s.target, ast.Name):
+                    binds[s.target.id] = a[0] - k
+                return ZERO, a[0] - a[1], {"k": k, "ksym": ksym,
+                                           "binds": binds}
+            if len(a) == 3 and all(isinstance(x, Lin) for x in a) and \
+                    a[2].is_const() and a[2].c == 1:
+                a = a[:2]
             if not all(isinstance(x, Lin) for x in a) or len(a) > 2:
                 return None
             lo, hi = (ZERO, a[0]) if len(a) == 1 else (a[0], a[1])
